@@ -9,6 +9,7 @@ From SF Require Import Base.Prelude Gen.Generated Unsized.Types Unsized.Parse Un
 From SF Require Import Unsized.Proofs.EncodeParse Unsized.Proofs.Mem Unsized.Proofs.Notify Unsized.Proofs.Flat Unsized.Proofs.Layout
   Unsized.Proofs.Table Unsized.Proofs.Path Unsized.Proofs.Context Unsized.Proofs.Context2 Unsized.Proofs.Focus Unsized.Proofs.Pos
   Unsized.Proofs.FocusOps Unsized.Proofs.NotifyInside Unsized.Proofs.Resize Unsized.Proofs.GenOps.
+From SF Require Import Unsized.Proofs.EnumFacts.
 
 Arguments Z.add : simpl never.
 Arguments Z.sub : simpl never.
@@ -56,7 +57,7 @@ Lemma LayP_plug_same (E E' : ty -> val -> Z -> ptr -> Prop) pi : forall t v b p 
   (forall a node, E X xv a node -> E' X x' a node) ->
   LayP E pi t v b p -> LayP E' pi t (plug t v pi x') b p.
 Proof.
-  induction pi as [|[i|i] r IH]; intros t v b p X xv x' Hr Hsz HE HL.
+  induction pi as [|[i|i|] r IH]; intros t v b p X xv x' Hr Hsz HE HL.
   - cbn [resolve] in Hr. injection Hr as <- <-. cbn [plug LayP] in *. exact (HE _ _ HL).
   - apply resolve_SF_inv in Hr as (ts & vs & ti & vi & -> & -> & Hti & Hvi & Hr).
     destruct p as [| | | |ps|]; try (cbn [LayP] in HL; contradiction).
@@ -83,6 +84,11 @@ Proof.
     replace (elem_addr it k (set_nth i (fst kv, plug it (snd kv) r x') items) b i) with (elem_addr it k items b i).
     + exact (IH _ _ _ _ _ _ _ Hr Hsz HE HLi).
     + unfold elem_addr. rewrite Hl', (usizes_set_nth _ _ _ _ _ Hkv), firstn_bump. reflexivity.
+  - apply resolve_SV_inv in Hr as (rw & vars & d0 & pv & vt & -> & -> & Hf & Hr).
+    destruct p as [| | | | |st d' q]; try (cbn [LayP] in HL; contradiction).
+    cbn [LayP] in HL. destruct HL as (-> & -> & vt' & Hf' & HLi). rewrite Hf in Hf'. injection Hf' as <-.
+    rewrite (plug_SV _ _ _ _ _ _ _ Hf). cbn [LayP]. split; [reflexivity|]. split; [reflexivity|].
+    exists vt. split; [exact Hf|]. exact (IH _ _ _ _ _ _ _ Hr Hsz HE HLi).
 Qed.
 
 (* ---------------------------------------------------------------------------------------------- *)
@@ -205,7 +211,7 @@ Qed.
 Lemma resolve_rem_tail pi : forall t v xv last,
   ty_ok last t = true -> resolve t v pi = Some (TRem, xv) -> snd (hctx t v pi 0) = [].
 Proof.
-  induction pi as [|[i|i] r IH]; intros t v xv last Hok Hr.
+  induction pi as [|[i|i|] r IH]; intros t v xv last Hok Hr.
   - reflexivity.
   - apply resolve_SF_inv in Hr as (ts & vs & ti & vi & -> & -> & Hti & Hvi & Hr).
     rewrite (hctx_SF _ _ _ _ _ _ Hti Hvi). cbn [snd].
@@ -217,6 +223,9 @@ Proof.
     discriminate (resolve_rem_last _ _ _ _ _ Hf Hr).
   - apply resolve_SE_inv in Hr as (it & k & items & kv & -> & -> & Hkv & Hr).
     cbn [ty_ok] in Hok. discriminate (resolve_rem_last _ _ _ _ _ Hok Hr).
+  - apply resolve_SV_inv in Hr as (rw & vars & d0 & pv & vt & -> & -> & Hf & Hr).
+    rewrite (hctx_SV _ _ _ _ _ _ Hf). cbn [snd].
+    exact (IH _ _ _ _ (ty_ok_enum_variant _ _ _ _ _ Hok Hf) Hr).
 Qed.
 
 (* ---------------------------------------------------------------------------------------------- *)
